@@ -1012,6 +1012,36 @@ func (c *Ctx) ruleCapBase() {
 	if n == 0 {
 		problems = append(problems, "the capacity store is unreachable")
 	}
+	// conversely: a return path on which no capacity was recorded had no positive request
+	capAddr := capStore.Addr
+	for _, ret := range c.returnsOf(fn) {
+		for _, s := range fa.statesBefore(ret) {
+			if _, stored := s.heap[fa.term(s, capAddr).key]; stored {
+				continue
+			}
+			cp := fn.Params[len(fn.Params)-1]
+			lenC := tt.mk(Term{K: "LEN", A: fa.term(s, cp)})
+			none := c.provesFact(fa, s, Fact{aTR, tt.mk(Term{K: "B", S: "<=", A: lenC, B: c.intConst(0)}), true}, nil)
+			if !none {
+				req := tt.mk(Term{K: "L", A: tt.mk(Term{K: "IA", A: fa.term(s, cp), B: c.intConst(0)}), N: 0})
+				// the request as loaded in this function (any epoch): look for the load term in the state's facts
+				okNeg := false
+				for _, f := range s.factList() {
+					for _, side := range []*Term{f.T.A, f.T.B} {
+						if side != nil && side.K == "L" && side.A != nil && side.A.K == "IA" && side.A.A == fa.term(s, cp) {
+							req = side
+						}
+					}
+				}
+				if c.provesFact(fa, s, Fact{aTR, tt.mk(Term{K: "B", S: "<=", A: req, B: c.intConst(0)}), true}, nil) {
+					okNeg = true
+				}
+				if !okNeg {
+					problems = append(problems, "a stack can be created without a capacity word although a positive capacity may have been requested (e.g. a request of exactly 1 ignored)")
+				}
+			}
+		}
+	}
 	if len(problems) == 0 {
 		rep.ok("R-CAPEQ", "newStack", "capacity word", pos, "K = requested capacity + 1 is recorded only for a positive request, and the empty backing array is made with capacity K (so K >= 1 when set: a wrapped sum would make make() fail)")
 	} else {
